@@ -43,7 +43,6 @@ Definition cmp_out (j : nat) (p : Q) (val valsq : bounds) (scales : list bounds)
   | _ => within TP p val (nth j scales None)
   end.
 
-Definition outs_list (o : outs) : list expr := [o_re o; o_im o; o_inc o; o_coh o; o_abs o; o_ixs o; o_pen o].
 Definition out_names : list string := ["sld_re"; "sld_im"; "sld_inc"; "coh_xs"; "abs_xs"; "inc_xs"; "penetration"].
 
 Definition piece_exprs (ps : list compE) : list expr := flat_map (fun c => [ce_re c; ce_im c; ce_ss c]) ps.
